@@ -35,7 +35,7 @@ LETTERS = [
     ('line', '-- c\n'), ('dash', '-- c --'), ('line0', '--\n'), ('block', '/* c */'),
     ('blocknl', '/* a\nb */'), ('block0', '/**/'), ('nested', '/* a /* b */ c */'),
     ('blockdash', '/* -- */'), ('linequote', '-- "q" \n'), ('blockquote', '/* " */'),
-    ('lineclose', '-- */ x\n'), ('lineopen', '-- /* x\n'),
+    ('lineclose', '-- */ x\n'), ('lineopen', '-- /* x\n'), ('linequote1', '-- " c\n'),
 ]
 NL = len(LETTERS)
 LNAME = [n for n, _ in LETTERS]
